@@ -316,6 +316,11 @@ TEMPLATES["Truncated.integrate[x**2]"] = (lambda P: _trunc(P, tmod.TruncatedGaus
 TEMPLATES["Truncated.call"] = (lambda P: _trunc(P, tmod.TruncatedGaussianMeasure)(P["x"][:, :1]).ravel(), True, 1e-6)
 TEMPLATES["TruncatedPDF.mean_var"] = (lambda P: jnp.concatenate([_trunc(P, tmod.TruncatedGaussianPDF).get_mean().ravel(), _trunc(P, tmod.TruncatedGaussianPDF).get_variance().ravel()]), False, 1e-6)
 TEMPLATES["Truncated.onesided"] = (lambda P: tmod.TruncatedGaussianMeasure(measure=measure.GaussianMeasure(Lambda=jnp.exp(P["c0"]).reshape(1, 1, 1), nu=P["c1"].reshape(1, 1)), lower_limit=P["w1"].reshape(1, 1)).integrate("x").ravel(), False, 1e-6)
+# upper limit only (lower limit -inf, implicit and explicit), for a measure and a density built from a covariance
+TEMPLATES["Truncated.upper_only"] = (lambda P: tmod.TruncatedGaussianMeasure(measure=measure.GaussianMeasure(Lambda=jnp.exp(P["c0"]).reshape(1, 1, 1), nu=P["c1"].reshape(1, 1)), upper_limit=P["w1"].reshape(1, 1)).integrate("x").ravel(), False, 1e-6)
+TEMPLATES["Truncated.upper_only_explicit_inf"] = (lambda P: tmod.TruncatedGaussianMeasure(measure=measure.GaussianMeasure(Lambda=jnp.exp(P["c0"]).reshape(1, 1, 1), nu=P["c1"].reshape(1, 1)), lower_limit=-jnp.inf, upper_limit=P["w1"].reshape(1, 1)).integrate("x**2").ravel(), False, 1e-6)
+TEMPLATES["TruncatedPDF.upper_only"] = (lambda P: (lambda t: jnp.concatenate([t.get_mean().ravel(), t.get_variance().ravel()]))(tmod.TruncatedGaussianPDF(measure=pdf.GaussianPDF(Sigma=jnp.exp(P["c0"]).reshape(1, 1, 1), mu=P["c1"].reshape(1, 1)), upper_limit=P["w1"].reshape(1, 1))), False, 1e-6)
+TEMPLATES["TruncatedPDF.lower_only"] = (lambda P: (lambda t: jnp.concatenate([t.get_mean().ravel(), t.get_variance().ravel()]))(tmod.TruncatedGaussianPDF(measure=pdf.GaussianPDF(Sigma=jnp.exp(P["c0"]).reshape(1, 1, 1), mu=P["c1"].reshape(1, 1)), lower_limit=P["w1"].reshape(1, 1))), False, 1e-6)
 
 
 def _kalman(P, use_scan):
